@@ -184,6 +184,23 @@ def install(E):
         o = E.new_obj(st, a[0], name="raw%d" % E.next_obj, zero=True, kind="raw")
         return Ptr(o.id, 0)
 
+    @reg("vf_guarded")
+    def vf_guarded(E, st, fr, ins, a):
+        g = list(st.user.get("guards") or [])
+        g.append((a[0].obj, a[0].off, a[0].off + a[1], _pname(st, a[2]), E.cstring(st, a[3]).decode()))
+        st.user["guards"] = g
+        st.user["guard_on"] = True
+        return None
+
+    @reg("vf_guard_enable")
+    def vf_guard_enable(E, st, fr, ins, a):
+        st.user["guard_on"] = bool(a[0])
+        return None
+
+    @reg("vf_locks_held")
+    def vf_locks_held(E, st, fr, ins, a):
+        return len(st.user.get("held") or [])
+
     @reg("vf_fail")
     def vf_fail(E, st, fr, ins, a):
         raise EngineError("harness failure: " + E.cstring(st, a[0]).decode())
@@ -414,10 +431,15 @@ def install(E):
             raise S.SymByte(b)
         return b
 
+    def iszero(E, st, b):
+        if not is_sym(b):
+            return b == 0
+        return E.decide(st, bv(b, 8) == 0)
+
     @reg("strlen")
     def strlen(E, st, fr, ins, a):
         n = 0
-        while cbyte(E, st, a[0], n) != 0:
+        while not iszero(E, st, sbyte(E, st, a[0], n)):
             n += 1
         return n
 
